@@ -77,6 +77,8 @@ func chain(v ssa.Value) []ssa.Value {
 // boundCheck describes a dominating comparison that bounds a value.
 type boundCheck struct {
 	upper, lower bool
+	strict       bool      // upper: establishes value < limit (otherwise value <= limit)
+	lenOf        ssa.Value // upper: the limit is len()/cap() of this value (nil for constants)
 	unsignedCmp  bool // the compared value has an unsigned type (so an upper bound is also a lower bound of 0)
 	limit        string
 	pos          token.Pos
@@ -84,16 +86,21 @@ type boundCheck struct {
 
 // isLimit reports whether v is an acceptable limit operand: a constant, len()/cap() of something, or a conversion of those.
 func isLimit(v ssa.Value) (string, bool) {
+	s, _, ok := limitOf(v)
+	return s, ok
+}
+
+func limitOf(v ssa.Value) (string, ssa.Value, bool) {
 	v = core.StripConv(v)
 	if c, ok := v.(*ssa.Const); ok && c.Value != nil {
-		return c.Value.String(), true
+		return c.Value.String(), nil, true
 	}
 	if call, ok := v.(*ssa.Call); ok {
-		if b, ok := call.Call.Value.(*ssa.Builtin); ok && (b.Name() == "len" || b.Name() == "cap") {
-			return b.Name() + "(...)", true
+		if b, ok := call.Call.Value.(*ssa.Builtin); ok && (b.Name() == "len" || b.Name() == "cap") && len(call.Call.Args) == 1 {
+			return b.Name() + "(...)", call.Call.Args[0], true
 		}
 	}
-	return "", false
+	return "", nil, false
 }
 
 // findBounds looks for dominating comparisons of any value in vals (all
@@ -137,14 +144,15 @@ func findBounds(vals []ssa.Value, sink *ssa.BasicBlock, sinkInstr ssa.Instructio
 		}
 		var val ssa.Value
 		var lim string
+		var lenOf ssa.Value
 		op := bo.Op
 		if v, ok := inVals(bo.X); ok {
-			if l, ok := isLimit(bo.Y); ok {
-				val, lim = v, l
+			if l, lo, ok := limitOf(bo.Y); ok {
+				val, lim, lenOf = v, l, lo
 			}
 		} else if v, ok := inVals(bo.Y); ok {
-			if l, ok := isLimit(bo.X); ok {
-				val, lim = v, l
+			if l, lo, ok := limitOf(bo.X); ok {
+				val, lim, lenOf = v, l, lo
 				// mirror the operator: K op v  ==  v op' K
 				switch op {
 				case token.LSS:
@@ -163,13 +171,16 @@ func findBounds(vals []ssa.Value, sink *ssa.BasicBlock, sinkInstr ssa.Instructio
 		}
 		// Edge taken when "val is too large" / "val is too small".
 		var bigEdge, smallEdge = -1, -1
+		strict := false
 		switch op {
 		case token.GTR, token.GEQ: // val > K true => too big on edge 0
 			bigEdge = 0
 			smallEdge = 1 // val <= K ... not a lower bound by itself
+			strict = op == token.GEQ // in range means val < K
 		case token.LSS, token.LEQ: // val < K true: edge 0 is "small", edge 1 is "big"
 			bigEdge = 1
 			smallEdge = 0
+			strict = op == token.LSS
 		default:
 			continue
 		}
@@ -185,7 +196,7 @@ func findBounds(vals []ssa.Value, sink *ssa.BasicBlock, sinkInstr ssa.Instructio
 		// Upper bound: the "too big" edge must not reach the sink.
 		if !core.ReachableAvoiding(b.Succs[bigEdge], sink, nil, nil) || b.Succs[bigEdge] == sink && false {
 			if b.Succs[bigEdge] != sink {
-				out = append(out, boundCheck{upper: true, unsignedCmp: unsigned, limit: lim, pos: iff.Cond.Pos()})
+				out = append(out, boundCheck{upper: true, strict: strict, lenOf: lenOf, unsignedCmp: unsigned, limit: lim, pos: iff.Cond.Pos()})
 			}
 		}
 		// Lower bound: comparison against a constant <= 0 ... "val < 0" / "val <= 0" with the small edge not reaching the sink.
@@ -548,6 +559,28 @@ func provablyNonNeg(v ssa.Value, depth int) bool {
 	return false
 }
 
+// sameContainer reports whether two SSA values denote the same slice/array
+// (identical value, or loads of the same address).
+func sameContainer(a, b ssa.Value) bool {
+	if a == b {
+		return true
+	}
+	la, ok1 := a.(*ssa.UnOp)
+	lb, ok2 := b.(*ssa.UnOp)
+	if ok1 && ok2 && la.Op == token.MUL && lb.Op == token.MUL {
+		return sameAddr(la.X, lb.X)
+	}
+	return false
+}
+
+func constLimit(s string) (int64, bool) {
+	var k int64
+	if _, err := fmt.Sscanf(s, "%d", &k); err != nil {
+		return 0, false
+	}
+	return k, true
+}
+
 // containerLen returns the static length of the indexed container (array or
 // pointer to array), or -1 for slices/strings.
 func containerLen(t types.Type) int64 {
@@ -567,24 +600,25 @@ func runIndex(c *core.Ctx) []core.Obligation {
 		n := 0
 		core.AllInstrs(fn, func(in ssa.Instruction) {
 			type sink struct {
-				idx  ssa.Value
-				cont types.Type
-				what string
+				idx       ssa.Value
+				cont      types.Type
+				what      string
+				container ssa.Value
 			}
 			var sinks []sink
 			switch x := in.(type) {
 			case *ssa.IndexAddr:
-				sinks = append(sinks, sink{x.Index, x.X.Type(), "index"})
+				sinks = append(sinks, sink{x.Index, x.X.Type(), "index", x.X})
 			case *ssa.Index:
-				sinks = append(sinks, sink{x.Index, x.X.Type(), "index"})
+				sinks = append(sinks, sink{x.Index, x.X.Type(), "index", x.X})
 			case *ssa.Lookup:
 				if _, isMap := x.X.Type().Underlying().(*types.Map); !isMap {
-					sinks = append(sinks, sink{x.Index, x.X.Type(), "index"})
+					sinks = append(sinks, sink{x.Index, x.X.Type(), "index", x.X})
 				}
 			case *ssa.Slice:
 				for _, b := range []ssa.Value{x.Low, x.High, x.Max} {
 					if b != nil {
-						sinks = append(sinks, sink{b, x.X.Type(), "slice bound"})
+						sinks = append(sinks, sink{b, x.X.Type(), "slice bound", x.X})
 					}
 				}
 			}
@@ -602,11 +636,33 @@ func runIndex(c *core.Ctx) []core.Obligation {
 				vals := chain(s.idx)
 				checks := findBounds(vals, in.Block(), in)
 				var upper *boundCheck
+				weak := ""
 				for i := range checks {
-					if checks[i].upper {
-						upper = &checks[i]
-						break
+					ch := &checks[i]
+					if !ch.upper {
+						continue
 					}
+					if ch.lenOf != nil {
+						// the limit must be the length of the container being indexed, and strict for an element index
+						if !sameContainer(ch.lenOf, s.container) {
+							weak = fmt.Sprintf("the check at %s compares with the length of a different container", c.Pos(ch.pos))
+							continue
+						}
+						if s.what == "index" && !ch.strict {
+							weak = fmt.Sprintf("the check at %s admits index == len (off by one)", c.Pos(ch.pos))
+							continue
+						}
+					} else {
+						// constant limit: must fit a statically sized container
+						k, okK := constLimit(ch.limit)
+						cl := containerLen(s.cont)
+						if !okK || cl < 0 || !(k < cl || (k == cl && (ch.strict || s.what != "index"))) {
+							weak = fmt.Sprintf("the check at %s bounds the value by the constant %s, which is not known to fit this container", c.Pos(ch.pos), ch.limit)
+							continue
+						}
+					}
+					upper = ch
+					break
 				}
 				nn, nnWhy := nonNegative(vals, checks)
 				if !nn && provablyNonNeg(s.idx, 0) {
@@ -623,7 +679,9 @@ func runIndex(c *core.Ctx) []core.Obligation {
 						fmt.Sprintf("%s from %s; value range [0,%d] fits the array of length %d (mask/shift/modulus arithmetic)", s.what, shortWhy(why), ub, clen)))
 				default:
 					detail := fmt.Sprintf("%s may be chosen by decoder input (%s)", s.what, shortWhy(why))
-					if upper == nil {
+					if upper == nil && weak != "" {
+						detail += "; " + weak
+					} else if upper == nil {
 						detail += "; no dominating upper-bound check"
 						if clen >= 0 {
 							detail += fmt.Sprintf(" and its range (max %d) is not known to fit the array of length %d", ub, clen)
